@@ -74,7 +74,7 @@ Fixpoint has_type (fuel : nat) (t : ty) (v : value) : bool :=
   end end.
 
 (* ---------- syntax ---------- *)
-Inductive binop := Add | Sub | Mul | Div | Mod | BAnd | BOr | BXor.
+Inductive binop := Add | Sub | Mul | Div | Mod | BAnd | BOr | BXor | Pow.
 Inductive cmpop := Lt | Le | Gt | Ge | Eq | Ne.
 Inductive tbase := BLoc (x : nat) | BSto (x : nat) | BTra (x : nat).
 
@@ -101,6 +101,7 @@ Inductive expr :=
 | EValue
 | EList (l : list expr)                (* [a, b, ...] or Struct(f=a, ...) *)
 | EPop (b : tbase) (p : list (expr + nat))    (* target.pop(); path element = inl index-expr | inr field *)
+| EShift (lft : bool) (t : ty) (a b : expr)   (* a << b / a >> b on uint256 / int256: never reverts *)
 | EConcat (a b : expr)                 (* concat(a, b) on Bytes *)
 | ESlice (a start len : expr).         (* slice(a, start, len) on Bytes: reverts unless start + len <= len(a) *)
 
@@ -252,9 +253,30 @@ Definition store_event (b : tbase) (p : list Z) (v : value) : list event :=
   end.
 
 (* ---------- arithmetic: the oracle of C03 ---------- *)
+(* a ^ b for |a| <= 1 without iterating b times (b may be astronomically large) *)
+Definition pow_val (a b : Z) : option Z :=
+  if a =? 0 then Some (if b =? 0 then 1 else 0)
+  else if a =? 1 then Some 1
+  else if a =? -1 then Some (if Z.even b then 1 else -1)
+  else None.
+
+(* shifts wrap (left) / floor (right, arithmetic for signed); a shift by >= bits gives 0 (or -1 for negative >> ) *)
+Definition shift_val (lft : bool) (bits : Z) (sg : bool) (a b : Z) : Z :=
+  if lft then
+    if bits <=? b then 0 else
+    let w := (a * 2 ^ b) mod 2 ^ bits in
+    if sg && (2 ^ (bits - 1) <=? w) then w - 2 ^ bits else w
+  else
+    if bits <=? b then (if a <? 0 then -1 else 0) else a / 2 ^ b.
+
 Definition arith (op : binop) (bits : Z) (sg : bool) (a b : Z) : option Z :=
   let chk z := if in_range bits sg z then Some z else None in
   match op with
+  | Pow => if b <? 0 then None else
+           match pow_val a b with
+           | Some v => chk v
+           | None => if bits <? b then None else chk (a ^ b)     (* |a| >= 2 and b > bits: cannot fit *)
+           end
   | Add => chk (a + b)
   | Sub => chk (a - b)
   | Mul => chk (a * b)
@@ -433,6 +455,13 @@ Fixpoint eval (fuel : nat) (e : expr) (s : state) {struct fuel} : R value :=
   | EList l =>
       do vs, s1 <- eval_list f l s;
       ret (VList vs) s1
+  | EShift lft t a b =>
+      do va, s1 <- eval f a s;
+      do vb, s2 <- eval f b s1;
+      match t, va, vb with
+      | TInt bits sg, VInt x, VInt y => ret (VInt (shift_val lft bits sg x y)) s2
+      | _, _, _ => Fail Stuck
+      end
   | EConcat a b =>
       do va, s1 <- eval f a s;
       do vb, s2 <- eval f b s1;
@@ -740,7 +769,7 @@ Fixpoint depth_e (e : expr) : nat :=
       end in
   match e with
   | EConst _ | EVar _ | ESelf _ | ETra _ | ESender | EValue => 1
-  | EBin _ _ a b | ECmp _ a b | EAnd a b | EOr a b | EIdx a b | EMin a b | EMax a b | EConcat a b =>
+  | EBin _ _ a b | ECmp _ a b | EAnd a b | EOr a b | EIdx a b | EMin a b | EMax a b | EConcat a b | EShift _ _ a b =>
       S (Nat.max (depth_e a) (depth_e b))
   | ESlice a b c => S (Nat.max (depth_e a) (Nat.max (depth_e b) (depth_e c)))
   | ENot a | ENeg _ a | EFld a _ | ELen a | EConv _ a => S (depth_e a)
